@@ -22,7 +22,7 @@ def run(check, tier):
         "update_defaults on a nested key whose '-'/'_' spelling differs from the stored one is outside the claim",
         "CrossHair models Python int exactly; dict/str operations are executed on CrossHair's symbolic containers",
     ]
-    check.outside += ["histories longer than 3 operations", "keys mixing '-' and '_' in one segment",
+    check.outside += ["histories longer than 3 operations (thorough: a seeded sample of 80 of the 500 three-operation groups)", "keys mixing '-' and '_' in one segment",
                       "yaml files / environment variables", "threads"]
     t = 90 if tier == "quick" else 400
     jobs = []
@@ -46,10 +46,11 @@ def run(check, tier):
     jobs.append(dict(fn="bad_device_str", timeout=t * 2, key="bad_device_str"))
     jobs.append(dict(fn="good_device", timeout=t, key="good_device"))
     if tier == "thorough":
-        for o1 in range(5):
-            for o2 in range(5):
-                for o3 in range(5):
-                    for i1 in range(4):
-                        jobs.append(dict(fn="seq3", fixed=dict(o1=o1, o2=o2, o3=o3, i1=i1), timeout=900,
-                                         key="history3"))
+        # three-operation histories: 500 (o1, o2, o3, first key) groups of ~3 CPU-minutes each; a seeded sample of 80 keeps the
+        # tier under half an hour on 16 cores (VERIF_SEED selects another sample)
+        import random
+        from ..common import seed
+        groups = [(o1, o2, o3, i1) for o1 in range(5) for o2 in range(5) for o3 in range(5) for i1 in range(4)]
+        for o1, o2, o3, i1 in random.Random(seed()).sample(groups, 80):
+            jobs.append(dict(fn="seq3", fixed=dict(o1=o1, o2=o2, o3=o3, i1=i1), timeout=900, key="history3"))
     run_jobs(check, FILE, jobs)
